@@ -57,6 +57,7 @@ struct Inner {
     distinct: HashSet<u64>,
     outcomes: BTreeMap<String, u64>,
     samples: Vec<Value>,
+    sample_tags: BTreeMap<String, u64>,
     violations: Vec<Violation>,
     viol_per_key: BTreeMap<String, u64>,
     assumptions: Vec<String>,
@@ -77,7 +78,7 @@ pub struct Ctx {
 }
 
 pub const MAX_VIOL_PER_KEY: u64 = 5;
-pub const MAX_SAMPLES: usize = 12;
+pub const MAX_SAMPLES: usize = 16;
 
 impl Ctx {
     pub fn new(id: &str, tier: Tier, seed: u64, level: &'static str) -> Self {
@@ -133,6 +134,18 @@ impl Ctx {
         let mut g = self.lock();
         if g.samples.len() < MAX_SAMPLES {
             g.samples.push(v);
+        }
+    }
+    /// Record an actual explored case as a sample: at most two per tag (cheap to call from hot paths
+    /// only behind a counter — it takes the lock).
+    pub fn sample_tagged(&self, tag: &str, v: impl FnOnce() -> Value) {
+        let mut g = self.lock();
+        let n = g.samples.len();
+        let c = g.sample_tags.entry(tag.to_string()).or_insert(0);
+        if *c < 2 && n < MAX_SAMPLES {
+            *c += 1;
+            let val = v();
+            g.samples.push(json!({"case_kind": tag, "case": val}));
         }
     }
     pub fn n_samples(&self) -> usize {
